@@ -1,11 +1,161 @@
-(* Props/C13.v — property theorems only. Each is closed by `exact <lemma>`. *)
+(* Props/C13.v — property theorems only. Each is closed by `exact <lemma>`.
+
+   C13: tokens (and the pre-parser's trivia maps) are lossless over the source text.
+   Also the lexer / pre-parser part of C04 (totality).
+
+   Objects (Lexer/Model.v, a literal transcription of tokenizer.rs / token.rs / preparser.rs):
+     Ch      one source character: code point + the answers of the character-class predicates the
+             grammar asks (is_newline, is_ident_start, is_ident_continue, is_digit, is_ascii_digit).
+             The answers are arbitrary inputs: every theorem below holds for ANY classification.
+     Input   = list Ch;  blen s = number of UTF-8 bytes of s (sum of char::len_utf8).
+     Token   = (tk_kind, tk_start, tk_len) with byte offsets; tk_end t = tk_start t + tk_len t;
+             tk_text s t = &s[tk_start .. tk_end].
+     tokenize s = TokOk tokens | TokOutOfFuel  (the scanner loop runs with fuel |s|+1).
+     preparse tokens = (pp_token_indices, pp_leading, pp_trailing).                                  *)
 From Coq Require Import List NArith.
-From Mimium Require Import Tables.LexerTables Lexer.Model.
+From Mimium Require Import Tables.LexerTables Lexer.Model Lexer.Lemmas Lexer.PreLemmas.
 Import ListNotations.
 Local Open Scope N_scope.
 
-(* the model runs: "1.5" is one Float token followed by Eof *)
-Example C13_model_runs :
-  tokenize [mkCh 49 false false true true true; mkCh 46 false false false false false; mkCh 53 false false true true true]
-  = TokOk [mkTok KFloat 0 3; mkTok KEof 3 0].
+(* ---------------------------------------------------------------------------------------------- *)
+(* C13_tiling.  For every input the tokens tile the text:                                          *)
+(*   - the list ends with the Eof token (start = |s| in bytes, length 0), no other token is Eof    *)
+(*     and every other token is non-empty;                                                         *)
+(*   - contiguous: the first token starts at 0 and every token starts where the previous one ends  *)
+(*     (so, with the Eof clause, the tokens cover the text exactly);                               *)
+(*   - every start and end offset is a character boundary (a sum of len_utf8 of a prefix);         *)
+(*   - in order and non-overlapping: i < j  ->  end_i <= start_j;                                  *)
+(*   - concatenating the token texts reproduces the input.                                         *)
+(* ---------------------------------------------------------------------------------------------- *)
+Theorem C13_tiling : forall s : Input,
+  exists toks : list Token,
+    tokenize s = TokOk toks /\
+    exists body : list Token,
+      toks = body ++ [mkTok KEof (blen s) 0] /\
+      contiguous 0 toks /\
+      Forall (fun t => 0 < tk_len t /\ tk_kind t <> KEof) body /\
+      Forall (fun t => (exists k, tk_start t = blen (firstn k s)) /\ (exists k, tk_end t = blen (firstn k s))) toks /\
+      (forall i j, (i < j < length toks)%nat ->
+         tk_end (nth i toks (mkTok KEof 0 0)) <= tk_start (nth j toks (mkTok KEof 0 0))) /\
+      concat (map (tk_text s) toks) = s.
+Proof. exact tokenize_tiling. Qed.
+
+(* `contiguous pos toks`: Fixpoint, tk_start of the head = pos and the tail is contiguous from tk_end of the head *)
+Example C13_contiguous_unfolds : forall pos t r,
+  contiguous pos (t :: r) <-> tk_start t = pos /\ contiguous (tk_end t) r.
+Proof. intros. reflexivity. Qed.
+
+(* C13_split_preserves_tiling.  Re-splitting `Float` tokens that directly follow a `.`
+   (split_projection_float_tokens, "a.0.1") maps ANY token list that tiles the text (same clauses as
+   in C13_tiling; `tiling s toks` is literally the `exists body, ...` of C13_tiling) to one that tiles it. *)
+Theorem C13_split_preserves_tiling : forall (s : Input) (body : list Token),
+  tiling s (body ++ [mkTok KEof (blen s) 0]) ->
+  tiling s (split_projection_float_tokens body s ++ [mkTok KEof (blen s) 0]).
+Proof. exact split_preserves_tiling_clauses. Qed.
+
+Example C13_tiling_is_the_clause_list : forall s toks,
+  tiling s toks <->
+  exists body : list Token,
+      toks = body ++ [mkTok KEof (blen s) 0] /\
+      contiguous 0 toks /\
+      Forall (fun t => 0 < tk_len t /\ tk_kind t <> KEof) body /\
+      Forall (fun t => (exists k, tk_start t = blen (firstn k s)) /\ (exists k, tk_end t = blen (firstn k s))) toks /\
+      (forall i j, (i < j < length toks)%nat ->
+         tk_end (nth i toks (mkTok KEof 0 0)) <= tk_start (nth j toks (mkTok KEof 0 0))) /\
+      concat (map (tk_text s) toks) = s.
+Proof. intros. reflexivity. Qed.
+
+(* the re-split really happens: "a.0.1" (a . Float"0.1") becomes a . 0 . 1 *)
+Example C13_split_example :
+  let d := fun c => mkCh c false false true true true in
+  let s := [mkCh 97 false true true false false; mkCh 46 false false false false false; d 48;
+            mkCh 46 false false false false false; d 49] in
+  tokenize s = TokOk [mkTok KIdent 0 1; mkTok KDot 1 1; mkTok KInt 2 1; mkTok KDot 3 1; mkTok KInt 4 1; mkTok KEof 5 0].
 Proof. vm_compute. reflexivity. Qed.
+
+(* ---------------------------------------------------------------------------------------------- *)
+(* Trivia maps.  For ANY token list (not only the tokenizer's output):                             *)
+(*   attachments i pp  = number of occurrences of token index i in the values of the leading map   *)
+(*                       plus the number of occurrences in the values of the trailing map.         *)
+(*   is_syntax t       = t is neither trivia (LineBreak/Whitespace/comments) nor Eof.              *)
+(*   dropped toks j    = no syntax token precedes j, and scanning forward from j (j included) a    *)
+(*                       LineBreak or the end of the list comes before the first syntax token      *)
+(*                       (C13_dropped_in_words).  This is the F5 situation: `pending_trivia.clear()`*)
+(*                       at a LineBreak while no token has been seen, and the final                *)
+(*                       `if let Some(last_idx)` when the text has no syntax token at all.         *)
+(* C13_trivia_once: a trivia token is attached exactly once, unless it is dropped (then: never).   *)
+(* ---------------------------------------------------------------------------------------------- *)
+Theorem C13_trivia_once : forall (toks : list Token) (j : nat),
+  (j < length toks)%nat -> is_trivia (nth j toks (mkTok KEof 0 0)) = true ->
+  attachments (N.of_nat j) (preparse toks) = if dropped toks j then 0%nat else 1%nat.
+Proof. exact preparse_trivia_once. Qed.
+
+Theorem C13_dropped_in_words : forall (toks : list Token) (j : nat), (j <= length toks)%nat ->
+  (dropped toks j = true <->
+   (forall i, (i < j)%nat -> is_syntax (nth i toks (mkTok KEof 0 0)) = false) /\
+   ((exists b, (j <= b < length toks)%nat /\ is_linebreak (nth b toks (mkTok KEof 0 0)) = true /\
+               forall i, (j <= i < b)%nat -> is_syntax (nth i toks (mkTok KEof 0 0)) = false)
+    \/ (forall i, (j <= i < length toks)%nat -> is_syntax (nth i toks (mkTok KEof 0 0)) = false))).
+Proof. exact dropped_spec. Qed.
+
+(* nothing else is ever stored in the maps: an index that is not a trivia token of the list occurs nowhere *)
+Theorem C13_only_trivia_attached : forall (toks : list Token) (j : nat),
+  (length toks <= j)%nat \/ is_trivia (nth j toks (mkTok KEof 0 0)) = false ->
+  attachments (N.of_nat j) (preparse toks) = 0%nat.
+Proof. exact preparse_only_trivia. Qed.
+
+(* ... and "attached" means attached to a NEIGHBOUR.  syn_before toks v = number of syntax tokens strictly
+   before token index v.  Trivia stored as leading trivia of syntax token #k (key k indexes token_indices)
+   has exactly k syntax tokens before it, i.e. it lies between syntax tokens #k-1 and #k; trivia stored as
+   trailing trivia of #k has exactly k+1, i.e. it lies between #k and #k+1.  (#k exists: C04_preparse_total.) *)
+Theorem C13_trivia_neighbour : forall (toks : list Token) (k : N) (vs : list N) (v : N), In v vs ->
+  (In (k, vs) (pp_leading (preparse toks)) -> syn_before toks v = k) /\
+  (In (k, vs) (pp_trailing (preparse toks)) -> syn_before toks v = k + 1).
+Proof. exact preparse_neighbour. Qed.
+
+Example C13_syn_before_unfolds : forall toks v,
+  syn_before toks v = N.of_nat (length (filter is_syntax (firstn (N.to_nat v) toks))).
+Proof. intros. reflexivity. Qed.
+
+(* token_indices lists exactly the syntax tokens, in source order (what the CST parser consumes) *)
+Theorem C13_token_indices : forall toks : list Token,
+  pp_token_indices (preparse toks) = syn_idx 0 toks.
+Proof. exact preparse_token_indices. Qed.
+
+Example C13_syn_idx_unfolds : forall i t r,
+  syn_idx i (t :: r) = if is_syntax t then i :: syn_idx (N.succ i) r else syn_idx (N.succ i) r.
+Proof. intros. reflexivity. Qed.
+
+(* F5 — the property's trivia clause is refuted by the faithful model: for the text "// c\nfn"
+   (tokens: SingleLineComment, LineBreak, Function, Eof) the comment (index 0) and the line break
+   (index 1) are attached to nothing. *)
+Theorem C13_leading_trivia_refuted :
+  exists (s : Input) (toks : list Token),
+    tokenize s = TokOk toks /\
+    toks = [mkTok KSingleLineComment 0 4; mkTok KLineBreak 4 1; mkTok KFunction 5 2; mkTok KEof 7 0] /\
+    attachments 0 (preparse toks) = 0%nat /\ attachments 1 (preparse toks) = 0%nat.
+Proof. exact leading_trivia_refuted. Qed.
+
+(* ---------------------------------------------------------------------------------------------- *)
+(* C04 (lexer / pre-parser part): totality                                                         *)
+(* ---------------------------------------------------------------------------------------------- *)
+
+(* the scanner consumes at least one character per token: with any fuel > |s| the loop ends with
+   Some(tokens) — neither out of fuel nor the `then_ignore(end())` failure that would make tokenize
+   return only [Eof] *)
+Theorem C04_lex_total : forall (s : Input) (fuel : nat), (length s < fuel)%nat ->
+  exists toks, lex_loop fuel the_tables (mkCur 0 s) = LexOk toks.
+Proof. exact lex_loop_total. Qed.
+
+Theorem C04_tokenize_total : forall s : Input, tokenize s <> TokOutOfFuel.
+Proof. exact tokenize_total. Qed.
+
+(* preparse is a structural recursion (no fuel); what it returns can be used without bounds failures:
+   every stored token index is < |tokens| and every map key is < |token_indices| *)
+Theorem C04_preparse_total : forall (toks : list Token) (x : N),
+  (In x (pp_token_indices (preparse toks)) \/
+   In x (map_values (pp_leading (preparse toks))) \/ In x (map_values (pp_trailing (preparse toks))) ->
+   x < N.of_nat (length toks)) /\
+  (In x (map_keys (pp_leading (preparse toks))) \/ In x (map_keys (pp_trailing (preparse toks))) ->
+   x < N.of_nat (length (pp_token_indices (preparse toks)))).
+Proof. exact preparse_total. Qed.
